@@ -13,7 +13,11 @@ import re
 from vlib import core
 from vlib.coqterm import App
 
-HEADER = ('From Coq Require Import List NArith Bool.\nFrom DV Require Import C16.Model C11.Model.\nImport ListNotations.\nOpen Scope N_scope.\n'
+HEADER = ('From Coq Require Import List NArith Bool.\nFrom DV Require Import C16.Model C11.Model C11.ConfModel.\nImport ListNotations.\nOpen Scope N_scope.\n'
+          # the independent specification of coq/C11/ConfModel.v (conforms_to / spec on the resolved type tree); meaningful when enough_in holds
+          'Definition spec_in (f : nat) (D : defs) (r : tref) (x : value) : value :=\n'
+          '  match r with RNone => x | RPrim p => if kind p x then x else VNull\n'
+          '  | RNamed n => match dlookup n D with Some T => match resolve f D T with Some t => spec t x | None => VNull end | None => VNull end end.\n'
           'Definition conf_in (f : nat) (D : defs) (r : tref) (x : value) : bool :=\n'
           '  match r with RNone => true | RPrim p => is_atom p x\n'
           '  | RNamed n => match dlookup n D with Some T => conforms f D T x | None => false end end.\n'
@@ -536,13 +540,15 @@ def run_models(ctx, models, tagbase='c'):
         for kind, i, r, v in idx:
             if kind == 'in':
                 inp = '(VCtx [(77, %s)])' % val_coq(v)
-                terms.append('(var_eval %d D%d 77 %s %s, input_spec %d D%d 77 %s %s, conf_in %d D%d %s %s, enough_in %d D%d %s)'
-                             % (FUEL, mi, tref_coq(r), inp, FUEL, mi, tref_coq(r), inp, FUEL, mi, tref_coq(r), val_coq(v), FUEL, mi, tref_coq(r)))
+                terms.append('(var_eval %d D%d 77 %s %s, input_spec %d D%d 77 %s %s, conf_in %d D%d %s %s, enough_in %d D%d %s, spec_in %d D%d %s %s)'
+                             % (FUEL, mi, tref_coq(r), inp, FUEL, mi, tref_coq(r), inp, FUEL, mi, tref_coq(r), val_coq(v), FUEL, mi, tref_coq(r),
+                                FUEL, mi, tref_coq(r), val_coq(v)))
             elif kind == 'in-missing':
                 inp = '(VCtx [(78, VNull)])'
-                terms.append('(var_eval %d D%d 77 %s %s, input_spec %d D%d 77 %s %s, false, true)' % (FUEL, mi, tref_coq(r), inp, FUEL, mi, tref_coq(r), inp))
+                terms.append('(var_eval %d D%d 77 %s %s, input_spec %d D%d 77 %s %s, false, true, VNull)' % (FUEL, mi, tref_coq(r), inp, FUEL, mi, tref_coq(r), inp))
             else:
-                terms.append('(output_value %d D%d %s %s, var_type %d D%d %s)' % (FUEL, mi, tref_coq(r), val_coq(v), FUEL, mi, tref_coq(r)))
+                terms.append('(output_value %d D%d %s %s, var_type %d D%d %s, enough_ref %d D%d %s)'
+                             % (FUEL, mi, tref_coq(r), val_coq(v), FUEL, mi, tref_coq(r), FUEL, mi, tref_coq(r)))
     model = ctx.run_model(header, terms, shard_size=max(50, len(terms) // 16 + 1), tag='%s%d' % (tagbase, os.getpid()))
     recs, t = [], 0
     for mi, idx in enumerate(index):
@@ -580,6 +586,12 @@ def judge(ctx, models, xmls, recs, stats):
             if not rec['model'][3] and not any(b.startswith('fuel') for b in ctx.broken):
                 ctx.broken.append('fuel %d does not cover a generated type tree (C11_fuel_sufficient does not apply): %s' % (FUEL, tref_attr(r)))
             stats['in'] = stats.get('in', 0) + 1
+            # the independent specification (conforms_to / spec, C11_eval_item_spec_general) evaluated on the same case: it must be the Spec's value
+            if rec['model'][3]:
+                si = term_val(rec['model'][4])
+                stats['independent-spec-evaluated'] = stats.get('independent-spec-evaluated', 0) + 1
+                if si != sp and not any(b.startswith('independent') for b in ctx.broken):
+                    ctx.broken.append('independent specification (spec of coq/C11/ConfModel.v) differs from check on %s: %s vs %s' % (lit(v) if rec['kind'] == 'in' else '(no entry)', repr(si), repr(sp)))
             key = 'conforming' if conf else ('null' if got is None else 'partly-nulled')
             stats[key] = stats.get(key, 0) + 1
             if got is not None and got != v:
@@ -605,6 +617,8 @@ def judge(ctx, models, xmls, recs, stats):
                           case_of(models, xmls, rec), impl=ri, model={'impl_model': repr(im), 'spec': repr(sp)})
         else:
             om = term_val(rec['model'][0])
+            if not rec['model'][2] and not any(b.startswith('fuel') for b in ctx.broken):
+                ctx.broken.append('fuel %d does not cover the declared type of a generated output variable (C11_var_type_fuel_sufficient does not apply): %s' % (FUEL, tref_attr(r)))
             stats[rec['kind']] = stats.get(rec['kind'], 0) + 1
             ci, cm = classify(got, v), classify(om, v)
             stats['out-' + ci] = stats.get('out-' + ci, 0) + 1
@@ -688,5 +702,5 @@ def replay(ctx, path):
 
 MANIFEST = dict(
     technique='Coq proof (per-copy transliteration of the item-definition / variable / type closures, refinement to a generic Spec, conformance laws for all type trees and values, output coercion from C16) with model/code correspondence on generated DMN documents',
-    text='Theorems (coq/Props/C11.v, closed under the global context) for every item-definition tree (simple, referenced, component, collection-of each; allowed values; references followed with fuel) and every value: the 8+8+8+16 copy-pasted closures compute one generic function each; the per-copy model equals the Spec; conforming values pass unchanged; the result conforms (up to nulled components) or is null; checking is idempotent; a component type judges each component on its own; results are coerced to the output type as identity / wrap / unwrap / null (C16). Tied to model-evaluator/src/builders/{item_definition,item_definition_type,mod,decision}.rs by evaluating generated documents (all kinds to depth 3, values conforming and violating at every tree position) through evaluate_invocable.',
+    text='Theorems (coq/Props/C11.v, closed under the global context) for every item-definition tree (simple, referenced, component, collection-of each; allowed values; references followed with fuel) and every value: the 8+8+8+16 copy-pasted closures compute one generic function each; the per-copy model equals the Spec; conforming values pass unchanged; the result conforms (up to nulled components) or is null; checking is idempotent; a component type judges each component on its own; results are coerced to the output type as identity / wrap / unwrap / null (C16). The Spec `check` shares its arms with the per-copy model, so the content against an INDEPENDENT specification is separate (coq/C11/ConfModel.v: resolve = the type tree with references followed, defined iff the fuel covers it; conforms_to = conformance by recursion on the type, C16 type_of for simple types, allowed values, exactly the declared components, every item; spec; none mentions eval_item): a conforming value reaches the decision unchanged for every type (C11_eval_item_conforming_unchanged); for the types judged as a whole (simple, collection of simple, references to such) eval_item = the value if it conforms, else null (C11_eval_item_spec); that plain equation is FALSE for component types (C11_plain_equation_refuted: only the non-conforming component is nulled, as the property words it), and for every type eval_item = spec = conforming unchanged, else component-wise / item-wise, else null (C11_eval_item_spec_general); undeclared entries of a context are dropped, a context lacking a declared component is null as a whole, null conforms to nothing and stays null (C11_extra_entries_dropped, C11_extra_entries_result, C11_missing_component_null, C11_null_not_conforming, C11_null_stays_null; observed on the real code first). Fuel: once it covers the tree the resolved tree, the declared FEEL type and the output coercion are fuel-independent (C11_resolve_fuel_independent, C11_idef_type_declared, C11_var_type_fuel_sufficient, C11_output_fuel_sufficient); the declared type falls back to Any only when the chain of type references ends in an undefined name (C11_var_type_declared), below that fuel it silently becomes Any (C11_var_type_low_fuel), and the check evaluates the fuel condition for every generated input and output type; the output side is one equation (C11_output_spec, C16 coerced_spec). The check also evaluates spec on every input case. Tied to model-evaluator/src/builders/{item_definition,item_definition_type,mod,decision}.rs by evaluating generated documents (all kinds to depth 3, values conforming and violating at every tree position) through evaluate_invocable.',
     note='Trusted: Coq kernel + vm_compute, hand-written models (correspondence-checked, not verified), harness, FEEL parsing/evaluation of the generated literals and unary tests (sampled, not proved). Fixed: referenced types ignored their own allowed values; the allowed values of a collection were tested on the whole list.')
